@@ -17,12 +17,14 @@ import NTV.Driver.C07
 import NTV.Driver.C06
 import NTV.Driver.C16
 import NTV.Driver.C17
+import NTV.Driver.C14
+import NTV.Driver.C15
 /-! Line-protocol driver. Input line: `op<TAB>arg…<TAB>=><TAB>implAnswer`.
 Output line: `modelAnswer<TAB>verdict`. -/
 open NTV.Parse
 
 def allOps : List (String × Handler) :=
-  NTV.Driver.C19.ops ++ NTV.Driver.C09.ops ++ NTV.Driver.C02.ops ++ NTV.Driver.C13.ops ++ NTV.Driver.C04.ops ++ NTV.Driver.C05.ops ++ NTV.Driver.C10.ops ++ NTV.Driver.C01.ops ++ NTV.Driver.PM.ops ++ NTV.Driver.C12.ops ++ NTV.Driver.C11.ops ++ NTV.Driver.C08.ops ++ NTV.Driver.C18.ops ++ NTV.Driver.C20.ops ++ NTV.Driver.C07.ops ++ NTV.Driver.C06.ops ++ NTV.Driver.C16.ops ++ NTV.Driver.C17.ops
+  NTV.Driver.C19.ops ++ NTV.Driver.C09.ops ++ NTV.Driver.C02.ops ++ NTV.Driver.C13.ops ++ NTV.Driver.C04.ops ++ NTV.Driver.C05.ops ++ NTV.Driver.C10.ops ++ NTV.Driver.C01.ops ++ NTV.Driver.PM.ops ++ NTV.Driver.C12.ops ++ NTV.Driver.C11.ops ++ NTV.Driver.C08.ops ++ NTV.Driver.C18.ops ++ NTV.Driver.C20.ops ++ NTV.Driver.C07.ops ++ NTV.Driver.C06.ops ++ NTV.Driver.C16.ops ++ NTV.Driver.C17.ops ++ NTV.Driver.C14.ops ++ NTV.Driver.C15.ops
 
 def handleLine (line : String) : String :=
   let fields := line.splitOn "\t"
